@@ -36,6 +36,12 @@ def case_function(case):
     from harness.core import refsol
     tb.reset_config()
     f = case["f"]
+    tsym = case.get("tsym", "t")
+    if tsym != "t":
+        import re
+        from odetoolbox.config import Config
+        f = re.sub(r"(?<![A-Za-z0-9_])t(?![A-Za-z0-9_])", tsym, f)
+        Config.config["input_time_symbol"] = tsym        # what `options: {input_time_symbol: ...}` does
     out = {}
     events = []
     flag = {"k": None, "found_nonzero": False, "order1_done": False}
@@ -81,6 +87,8 @@ def case_function(case):
     out["events"] = events
     # ---- end-to-end: analysis + stepping
     indict = {"dynamics": [{"expression": "g = " + f}], "parameters": {k: v for k, v in PARAMS.items() if k in f}}
+    if tsym != "t":
+        indict["options"] = {"input_time_symbol": tsym}
     try:
         res = odetoolbox.analysis(json.loads(json.dumps(indict)), disable_stiffness_check=True)
     except BaseException as e:
@@ -93,7 +101,7 @@ def case_function(case):
     s = sol[0]
     svars = s["state_variables"]
     out["state_variables"] = svars
-    t = sympy.Symbol("t")
+    t = sympy.Symbol(tsym)
     h = sympy.Symbol("__h")
     pv = {sympy.Symbol(k): sympy.Rational(v) if "." not in v else sympy.Rational(v) for k, v in PARAMS.items()}
     fexpr = refsol.parse(f).subs(pv)
@@ -105,6 +113,10 @@ def case_function(case):
         if t in e.free_symbols:
             problems.append({"what": "propagator depends on t", "key": str(k)})
     iv = {v: sympy.N(refsol.parse(s["initial_values"][v]).subs(pv), 40) for v in svars}
+    nonconst = {v: sorted(str(q) for q in iv[v].free_symbols) for v in svars if iv[v].free_symbols}
+    if nonconst:
+        out["problems"] = [{"what": "initial value is not a constant: it still contains symbols (time variable?)", "initial_values": {v: s["initial_values"][v] for v in nonconst}, "symbols": nonconst}]
+        return out
     for k, v in enumerate(svars):
         want = sympy.N(derivs[k].subs(t, 0), 40)
         if abs(iv[v] - want) > sympy.Float("1e-12") * (1 + abs(want)):
@@ -164,6 +176,8 @@ def run(ctx, driver):
                 "distinct = distinct definitions; non-trivial = order >= 2 or a rejection")
     fam = [x for x in FAMILY if quick is False or x[2] == "q"]
     cases = [{"f": f, "order": o, "seed": ctx.seed * 1000 + i} for i, (f, o, _) in enumerate(fam)]
+    # the same functions written in a renamed time variable (option input_time_symbol)
+    cases += [{"f": f, "order": o, "seed": ctx.seed * 1000 + 500 + i, "tsym": ("time", "s", "t_sim")[i % 3]} for i, (f, o, c) in enumerate(fam) if c == "q" and i % 3 == 1]
     results = pool.run_cases("harness.props.c05", "case_function", cases, timeout=ctx.n(100, 600), init="_init_worker", deadline=ctx.deadline())
     ops = []
     for case, res in zip(cases, results):
@@ -204,12 +218,16 @@ def run(ctx, driver):
             ops.append((case, res, orc))
     ctx.sample({"f": cases[4]["f"], "impl": {k: results[4].get(k) for k in ("shape", "shape_error", "state_variables")} if isinstance(results[4], dict) else None})
     if driver is not None and ops:
+        max_order = driver.ask([("constants", {})])[0].get("max_order", 4)
         ans = driver.ask([("from-function", orc) for _, _, orc in ops])
         for (case, res, orc), a in zip(ops, ans):
             ctx.count("corr_from-function")
             impl = {"order": res["shape"]["order"]} if "shape" in res else {"error": res.get("shape_error")}
+            attempted = len(orc["invertible"]) - 2          # orders 2, 3, ... for which from_function asked its oracles
+            if impl.get("error") == "no-ode" and attempted != max_order - 1:
+                ctx.tie_break("corr:from-function", {"case": case["f"], "note": "the search gave up after trying %d higher orders; the model (max_order=%d from the source's default) tries %d" % (attempted, max_order, max_order - 1)})
             if a != impl:
-                ctx.tie_break("corr:from-function", {"case": case["f"], "model": a, "impl": impl, "oracle": {k: orc[k] for k in ("order1", "verifies")}})
+                ctx.tie_break("corr:from-function", {"case": case["f"], "tsym": case.get("tsym", "t"), "model": a, "impl": impl, "oracle": {k: orc[k] for k in ("order1", "verifies")}})
     ctx.assumptions += [
         "SymPy contracts: diff is the derivative, solve/inv of the sample matrix, simplify and _is_zero (true only for the zero expression); the verified identity f^(n) = sum a_k f^(k) is taken to hold for all t when _is_zero(simplify(.)) says so (validated by the stepping oracle at 40 digits)",
         "order-4 functions (up to several minutes in SymPy) run in the thorough tier only",
